@@ -387,7 +387,8 @@ def blk_lines(job, rng, nstores):
     except R.Unmodelled as e:
       meta.append(('unmodelled', pm['name'], bname, str(e))); continue
     body = it[2] if it[0] == 'comb' else it[3]
-    line = leanio.line('sv', 'blk', job.be, sp.module_sexp(pm), rs, sp.stmt_sexp(body), random_stores(rng, pm, nstores))
+    decls_only = dict(pm, items=[])          # the tie needs the declarations of the module, not its other processes
+    line = leanio.line('sv', 'blk', job.be, sp.module_sexp(decls_only), rs, sp.stmt_sexp(body), random_stores(rng, pm, nstores))
     lines.append(line); meta.append(('line', pm['name'], bname, node_kinds(rs, {})))
   return lines, meta
 
